@@ -13,17 +13,18 @@ import (
 	"bufio"
 	"encoding/hex"
 	"encoding/json"
+	"errors"
 	"fmt"
 	"math/rand"
 	"os"
 	"os/exec"
-	"runtime/pprof"
 	"strings"
 	"sync"
 	"syscall"
 	"time"
 
 	vaxis "git.sr.ht/~rockorager/vaxis"
+	"github.com/containerd/console"
 	"verif/harness/hx"
 )
 
@@ -96,7 +97,7 @@ func setenv(k string, on bool) {
 
 var envMu sync.Mutex
 
-func (s *spec) options(fc *hx.FakeConsole, noSignals bool) vaxis.Options {
+func (s *spec) options(fc console.Console, noSignals bool) vaxis.Options {
 	return vaxis.Options{WithConsole: fc, NoSignals: noSignals, DisableMouse: s.NoMouse,
 		DisableKittyKeyboard: s.NoKitty, CSIuBitMask: vaxis.CSIuBitMask(s.CSIuMask), ReportKeyboardEvents: s.ReportKB}
 }
@@ -301,6 +302,51 @@ func runInChild(s *spec) observation {
 	return ob
 }
 
+// ---------- New fails after start-up ----------
+
+// badSize is a console whose Size() fails, so that reportWinsize (ioctl on the
+// fake descriptor fails too) returns an error after New has enabled everything.
+type badSize struct{ *hx.FakeConsole }
+
+func (b badSize) Size() (console.WinSize, error) { return console.WinSize{}, errors.New("no size") }
+
+func runFailingNew(s *spec) ([]byte, error) {
+	envMu.Lock()
+	defer envMu.Unlock()
+	setenv("VAXIS_FORCE_WCWIDTH", false)
+	setenv("VAXIS_FORCE_UNICODE", false)
+	setenv("VAXIS_FORCE_NOZWJ", false)
+	fc := hx.NewFakeConsole(s.profile())
+	var err error
+	ok := hx.WithTimeout(opTimeout, func() {
+		_, err = vaxis.New(s.options(badSize{fc}, true))
+	})
+	if !ok {
+		return fc.Take(), errors.New("New did not return")
+	}
+	return fc.Take(), err
+}
+
+func (s *spec) failTerm(b []byte) string {
+	m := s.Mask
+	det := []bool{bit(m, 0), bit(m, 1), bit(m, 9), bit(m, 5) && !s.NoKitty, bit(m, 7), bit(m, 2), bit(m, 15), bit(m, 3)}
+	var ds []string
+	for _, d := range det {
+		ds = append(ds, hx.Bool(d))
+	}
+	appid := ""
+	if bit(m, 15) {
+		appid = "fakeapp"
+	}
+	ustyle := 0
+	if s.CursorReply >= 0 && s.CursorReply <= 6 {
+		ustyle = s.CursorReply
+	}
+	return fmt.Sprintf("mkFail (mkOpts %s false false false false) (mkFlags %s %s) %s %s %s %s %s %s\n %s",
+		hx.Bool(s.NoMouse), strings.Join(ds, " "), hx.Bool(s.NoMouse), hx.Z(int64(s.CSIuMask)), hx.Bool(s.ReportKB),
+		coqStr(appid), hx.Z(int64(ustyle)), hx.Bool(s.HonoursInband), hx.IntList(s.Kitty0), coqSegs(b))
+}
+
 // ---------- Coq printing ----------
 
 func coqStr(s string) string { return hx.Bytes([]byte(s)) }
@@ -387,6 +433,13 @@ func bit(m uint32, i uint) bool { return m&(1<<i) != 0 }
 func (s *spec) term(ob observation) string {
 	m := s.Mask
 	det := []bool{bit(m, 0), bit(m, 1), bit(m, 9), bit(m, 5) && !s.NoKitty, bit(m, 7), bit(m, 2), bit(m, 15), bit(m, 3)}
+	// The explicit-width probe depends on a cursor position report arriving within
+	// 50 ms (CursorPosition's timeout): on a loaded machine Vaxis may miss it.  What
+	// Vaxis detected is an input of the model, so take it from Vaxis when no quirk
+	// overrides it anyway.
+	if !s.ForceWc && !s.ForceNoZWJ {
+		det[2] = ob.Caps["explicitWidth"]
+	}
 	var ds []string
 	for _, d := range det {
 		ds = append(ds, hx.Bool(d))
@@ -416,12 +469,6 @@ func (s *spec) term(ob observation) string {
 		opts, flags, hx.Z(int64(s.CSIuMask)), hx.Bool(s.ReportKB), coqStr(appid), hx.Z(int64(ustyle)),
 		hx.Z(int64(s.Rows)), hx.Z(int64(s.Cols)), hx.Bool(s.HonoursInband), hx.IntList(s.Kitty0),
 		hx.List(ops), hx.List(obs), hx.List(caps), hx.Z(int64(ob.KFlags)))
-}
-
-func cpuTime() time.Duration {
-	var ru syscall.Rusage
-	syscall.Getrusage(syscall.RUSAGE_SELF, &ru)
-	return time.Duration(ru.Utime.Nano() + ru.Stime.Nano())
 }
 
 // ---------- generators ----------
@@ -558,11 +605,6 @@ func main() {
 		return
 	}
 	cfg := hx.ParseFlags()
-	if pf := os.Getenv("C04_CPUPROFILE"); pf != "" {
-		f, _ := os.Create(pf)
-		pprof.StartCPUProfile(f)
-		defer pprof.StopCPUProfile()
-	}
 	os.Unsetenv("COLORTERM")
 	for _, k := range []string{"VAXIS_FORCE_LEGACY_SGR", "VAXIS_FORCE_XTWINOPS", "VAXIS_DISABLE_NOZWJ", "VAXIS_GRAPHICS", "ASCIINEMA_REC", "VAXIS_LOG_LEVEL"} {
 		os.Unsetenv(k)
@@ -584,13 +626,6 @@ func main() {
 			}
 		}
 		var ob observation
-		c0 := cpuTime()
-		defer func() {
-			if d := cpuTime() - c0; os.Getenv("C04_TRACE") != "" && d > 20*time.Millisecond {
-				js, _ := json.Marshal(s)
-				fmt.Fprintln(os.Stderr, "slow case", d, string(js))
-			}
-		}()
 		if child {
 			ob = runInChild(s)
 			spawned++
@@ -617,6 +652,9 @@ func main() {
 		}
 		js["outcomes"] = codes
 		tags = append(tags, fmt.Sprintf("ops=%d", (len(s.Ops)+3)/4*4))
+		if bit(s.Mask, 9) && !s.ForceWc && !s.ForceNoZWJ && !ob.Caps["explicitWidth"] {
+			tags = append(tags, "cpr-reply-missed-50ms")
+		}
 		st.Add(s.term(ob), js, nontriv, tags...)
 	}
 
@@ -738,13 +776,27 @@ func main() {
 			st.Add(x.s.term(x.ob), map[string]interface{}{"spec": x.s, "class": x.s.Class, "outcomes": codes}, true, "known-hang")
 		}
 	}
-	if pf := os.Getenv("C04_GDUMP"); pf != "" {
-		f, _ := os.Create(pf)
-		pprof.Lookup("goroutine").WriteTo(f, 2)
-		f.Close()
+	// 7. New fails after start-up (reportWinsize error): every subset of the capabilities
+	// that does not take the in-band path, without the explicit-width probe
+	sf := hx.NewStream("newfail", "model.ModeTerm model.ModesTypes model.Modes", "c04fail", "c04_newfail_mismatches", "c04_newfail_violations")
+	sf.ShardMax = 32
+	for combo := 0; combo < 256; combo++ {
+		if combo&(1<<3) != 0 || combo&(1<<6) != 0 {
+			continue
+		}
+		for _, nm := range []bool{false, true} {
+			s := baseSpec(r, combo, nm)
+			s.HonoursInband = r.Intn(2) == 0
+			b, err := runFailingNew(s)
+			if err == nil {
+				direct = append(direct, hx.DirectViolation{Class: "newfail-setup", Case: s, What: "New succeeded although Size() fails: the harness did not reach the error path"})
+				continue
+			}
+			sf.Add(s.failTerm(b), map[string]interface{}{"spec": s, "error": err.Error()}, combo != 0 || nm, "newfail")
+		}
 	}
 	extra := map[string]interface{}{"child_processes": spawned, "harness_seconds": time.Since(t0).Seconds(),
 		"capability_subsets": "all 256 subsets of {sync, unicode, colortheme, inband, kittykb, sixel, explicitwidth, osc176} x DisableMouse"}
-	cfg.Write("C04", "sessions on a real Vaxis over hx.FakeConsole: every subset of the 8 mode-relevant capabilities x DisableMouse with a generated session (frames with styled/hyperlinked cells, Render, Refresh, ShowCursor/HideCursor, SetMouseShape, SetAppID, Suspend/Resume cycles) ending in Close or Suspend; quirk environment variables; cursor-style replies; kitty flag options; a terminal that implements ?2048 silently; SIGTERM and a panic in the input goroutine in child processes; Suspend/Close while suspended (recorded finding). non-trivial = some capability/option-conditional branch of enableModes/disableModes is taken or the session has a Suspend/Resume cycle; distinct by the whole case",
-		[]*hx.Stream{st}, extra, direct)
+	cfg.Write("C04", "sessions on a real Vaxis over hx.FakeConsole: every subset of the 8 mode-relevant capabilities x DisableMouse with a generated session (frames with styled/hyperlinked cells, Render, Refresh, ShowCursor/HideCursor, SetMouseShape, SetAppID, Suspend/Resume cycles) ending in Close or Suspend; quirk environment variables; cursor-style replies; kitty flag options; a terminal that implements ?2048 silently; SIGTERM and a panic in the input goroutine in child processes; Suspend/Close while suspended (recorded finding); New on a console whose size cannot be read (error path of New). non-trivial = some capability/option-conditional branch of enableModes/disableModes is taken or the session has a Suspend/Resume cycle; distinct by the whole case",
+		[]*hx.Stream{st, sf}, extra, direct)
 }
